@@ -266,6 +266,9 @@ func (Engine) Gen(seed uint64, idx int, tier string) interface{} {
 		sc.Stmts = append(sc.Stmts, Stmt{Kind: "compound", Lines: []string{fmt.Sprintf("def f%d(a, b=1):", i), g.ind + "return a + b"}})
 	}
 	n := 3 + r.Intn(12)
+	if tier == "thorough" && r.Chance(1, 3) {
+		n = 15 + r.Intn(25)
+	}
 	for i := 0; i < n; i++ {
 		st := decorate(r, g.stmt())
 		if r.Chance(1, 5) {
